@@ -44,6 +44,7 @@ REQUIRED_REACH = [
     "probe:execution_repeated_in_same_process",
     "probe:derived_failure_after_valid_original_in_same_process",
     "probe:derived_failure_alone",
+    "probe:run_in_fresh_interpreter_with_flags:-O",
 ]
 
 ENTRIES = ("string", "with_emitter", "assemble", "patch", "cli")
@@ -102,6 +103,9 @@ ERROR_CLASSES: dict[str, dict[str, Any]] = {
     "undefined_symbol_position": {"scope": "asm", "text": "*=undefined_zq"},
     "undefined_macro": {"scope": "asm", "text": "undefined_macro_zq(1)"},
     "too_few_macro_args": {"scope": "asm", "text": ".macro two_zq(a_zq, b_zq) {\n    .db a_zq, b_zq\n}\ntwo_zq(1)"},
+    # one macro body, applied first with an operand the opcode can encode and then with one it cannot
+    "macro_operand_too_wide_on_second_application": {"scope": "asm", "text": ".macro ldi_zq(v_zq) {\n    ldx v_zq\n}\nldi_zq(0x12)\nldi_zq(0x123456)"},
+    "macro_immediate_too_wide_on_second_application": {"scope": "asm", "text": ".macro ldm_zq(w_zq) {\n    lda #w_zq\n    .db w_zq\n}\nldm_zq(0x12)\nldm_zq(0x1234)\nldm_zq(0x123456)"},
     "unsupported_addressing_mode": {"scope": "asm", "text": "nop #0"},
     "index_after_immediate": {"scope": "asm", "text": "lda #0x10,x"},
     "index_after_immediate_y": {"scope": "asm", "text": "cpx #0x02,y"},
@@ -157,7 +161,7 @@ def applicable(klass: str, slot: dict[str, Any]) -> bool:
         return False
     if spec.get("top_only") and slot["ctx"] not in ("top", "included_file"):
         return False
-    if klass in ("too_few_macro_args", "undefined_macro_argument", "undefined_macro_argument_unused") and slot["ctx"] not in ("top", "included_file"):
+    if klass in ("too_few_macro_args", "undefined_macro_argument", "undefined_macro_argument_unused", "macro_operand_too_wide_on_second_application", "macro_immediate_too_wide_on_second_application") and slot["ctx"] not in ("top", "included_file"):
         # keep the helper macro definition at file level
         return False
     return True
@@ -192,7 +196,10 @@ def gen_case(cseed: int, tier: str) -> dict[str, Any]:
 
 
 def plan(tier: str) -> dict[str, Any]:
-    return {"fixed": [], "seeded": 32 if tier == "quick" else 0, "chunk": 1, "wall_cap_s": 240, "minimise_s": 30}
+    # the interpreter's own settings are environment too: every error class once in a fresh interpreter
+    # started with -O (asserts stripped, __debug__ false) for two fixed base programs
+    fixed = [dict(gen_case(core.case_seed(0xC14, "C14", f"opt{i}"), tier), only_interpreter_flags=["-O"]) for i in range(2 if tier == "quick" else 8)]
+    return {"fixed": fixed, "seeded": 26 if tier == "quick" else 0, "chunk": 1, "wall_cap_s": 240, "minimise_s": 30}
 
 
 def entry_spec(entry: str, prog: progen.Prog, copier: bool, cli_format: str) -> dict[str, Any]:
@@ -285,6 +292,9 @@ def run_single(case: dict[str, Any], stats: Stats) -> list[Violation]:
         first, o = entries.execute(files, roles, [op, op])
         stats.add_outcome(first)
         stats.bump("probe:execution_repeated_in_same_process")
+    elif case.get("pyflags"):
+        o = entries.run_fresh(files, roles, spec, "0", list(case["pyflags"]))
+        stats.bump("probe:run_in_fresh_interpreter_with_flags:" + "".join(case["pyflags"]))
     else:
         o = entries.execute_one(files, roles, spec, knobs, faults)
     stats.add_outcome(o)
@@ -292,6 +302,8 @@ def run_single(case: dict[str, Any], stats: Stats) -> list[Violation]:
     entry = spec["entry"]
     what = "clean"
     rep = " (second attempt in the same process)" if case.get("repeat") else ""
+    if case.get("pyflags"):
+        rep = f" (interpreter started with {' '.join(case['pyflags'])})"
     if inserted:
         what = "error:" + case["insert"]["class"]
     elif o["fired"]:
@@ -424,6 +436,8 @@ def benign_knobs(rng: random.Random) -> dict[str, Any]:
         k["short_reads"] = rng.getrandbits(32)
     if rng.random() < 0.5:
         k["short_writes"] = rng.getrandbits(32)
+    if rng.random() < 0.3:
+        k["locale_encoding"] = rng.choice(["latin-1", "cp1252", "ascii", "utf-8"])
     return k
 
 
@@ -434,6 +448,19 @@ def sub_cases(case: dict[str, Any], stats: Stats) -> Iterator[dict[str, Any]]:
     copier, fmt = case["copier"], case["cli_format"]
     specs = {e: entry_spec(e, prog, copier, fmt) for e in ENTRIES}
     base = {"type": "single", "prog": case["prog"]}
+    if case.get("only_interpreter_flags"):
+        slots0 = list(progen.iter_slots(prog))
+        for e in ENTRIES:
+            yield dict(base, spec=specs[e], knobs={}, pyflags=case["only_interpreter_flags"])
+        for klass in ERROR_CLASSES:
+            if ERROR_CLASSES[klass].get("c19_only") or (klass == "unmapped_bank" and not prog.unmapped_addr):
+                continue
+            if klass in ("run_off_mapped_rom", "address_beyond_24_bits", "branch_64k_away") and "map" in prog.features:
+                continue
+            ok_slots = [s for s in slots0 if applicable(klass, s)]
+            if ok_slots:
+                yield dict(base, spec=specs[rng.choice(ENTRIES)], insert={"class": klass, "slot": rng.choice(ok_slots)}, knobs={}, pyflags=case["only_interpreter_flags"])
+        return
     # (1) clean runs: default knobs, then benign perturbations
     for e in ENTRIES:
         yield dict(base, spec=specs[e], knobs={})
